@@ -509,3 +509,4 @@ end Rawr
 
 #print axioms Rawr.agree_set_fen
 #print axioms Rawr.agree_from_fen
+#print axioms Rawr.agree_default
